@@ -501,12 +501,45 @@ def c13(r):
 
 
 # ------------------------------------------------------------------------------------------ C19
+def expected_zgw(gw, start, n):
+    """daily depths from the configured observations: one observation -> constant; "Constant" -> the depth of the
+    latest observation on or before the day (the first one before it); "Variable" -> linear interpolation in time
+    between observations, the last value after the last one, undefined (NaN) before the first.
+    False when the configuration gives nothing to compare with."""
+    if not gw or gw.get("water_table", "Y") != "Y" or not gw.get("dates"):
+        return False
+    d0 = datetime.date.fromisoformat(start)
+    obs = sorted(((datetime.date.fromisoformat(str(d)[:10].replace("/", "-")) - d0).days, float(v))
+                 for d, v in zip(gw["dates"], gw["values"]))
+    if len(set(k for k, _ in obs)) != len(obs):
+        return False
+    out = np.full(n, np.nan)
+    if len(obs) == 1:
+        out[:] = obs[0][1]
+        return out
+    if gw.get("method", "Constant") == "Constant":
+        for t in range(n):
+            past = [v for k, v in obs if k <= t]
+            out[t] = past[-1] if past else obs[0][1]
+        return out
+    inside = [(k, v) for k, v in obs if 0 <= k < n]
+    if len(inside) != len(obs):
+        return False      # observations outside the window are dropped by label assignment: not compared here
+    ks = np.array([k for k, _ in inside], dtype=float)
+    vs = np.array([v for _, v in inside], dtype=float)
+    for t in range(n):
+        if t >= ks[0]:
+            out[t] = np.interp(t, ks, vs)
+    return out
+
+
 def c19(r):
     out = []
     if r.ctx is None or r.flux is None:
         return out
     ctx = r.ctx
     P = ctx["prof"]
+    expected = None
     for d in r.days:
         t = d["t"]
         row = r.flux[t]
@@ -518,6 +551,13 @@ def c19(r):
         zgw = float(ctx["z_gw"][t])
         if abs(row[F_ZGW] - zgw) > 1e-12 and not (math.isnan(zgw) and math.isnan(row[F_ZGW])):
             out.append(V("C19", "zgw-series", r, t, "reported water-table depth differs from the configured series", rep=row[F_ZGW], cfg=zgw))
+        # ... and the series itself is what the configured observations say (computed here from the scenario)
+        if expected is None:
+            expected = expected_zgw(r.scen.get("gw"), ctx["start"], len(ctx["z_gw"]))
+        if expected is not False:
+            e = expected[t]
+            if not (math.isnan(e) and math.isnan(zgw)) and not abs(zgw - e) <= 1e-9 * max(1.0, abs(e)):
+                out.append(V("C19", "zgw-observations", r, t, "daily water-table depth does not follow the configured observations", series=zgw, expected=float(e)))
         fa = L.get("fc_adj_new")
         if fa is not None:
             if np.any(fa < P["th_fc"] - 1e-12) or np.any(fa > P["th_s"] + 1e-12):
